@@ -1,8 +1,34 @@
+// c01json harness: JSON (map) form of serix (parts c01json of C01 and c02json of C02).
+//
+// Generates random type shapes (Schema) -> Go types via reflect.StructOf/SliceOf/ArrayOf/MapOf/PointerTo with
+// serix tags, object codes and interface alternatives registered on a fresh serix.API per case; prints the
+// same shape as a Coq schema. Subcommands:
+//
+//	enc : random well-typed boundary-biased values: JSONEncode (output parsed into a tree) and
+//	      JSONDecode(JSONEncode v), both compared with the model; Go-side oracle: the round trip gives v back.
+//	mut : well-formed documents of the wrong shape (every sub-tree replaced by other JSON kinds, numeric and
+//	      string edge cases, missing/extra keys, wrong type codes, aliasing map keys) fed to JSONDecode under
+//	      recover; Go-side oracle: no panic.
+//	probe : prints what the hand-written probe types do (used to reproduce D02b on the pinned tree).
 package main
 
 import (
-	"encoding/json"
+	"context"
+	"flag"
+	"fmt"
+	"math"
+	"math/big"
 	"os"
+	"reflect"
+	"runtime"
+	"strconv"
+	"time"
+
+	"encoding/json"
+
+	"github.com/iotaledger/hive.go/serializer/v2/serix"
+
+	"verif/harness/vx"
 )
 
 func replaceKey(doc, key, raw string) string {
@@ -15,9 +41,632 @@ func replaceKey(doc, key, raw string) string {
 	return string(b)
 }
 
+// ---------- schema generation ----------
+
+type gen struct {
+	r      *vx.Rng
+	nField int
+	nCode  int64
+	alts   []*Schema
+	codeU8 bool
+}
+
+var numKinds = []string{"I8", "I16", "I32", "U8", "U16", "U32"}
+var nameSuffix = []string{"", "", "", "a", "ID", "URL", "NFTx", "HRP", "Xy", "IDs"}
+
+func (g *gen) leaf() *Schema {
+	switch g.r.Intn(12) {
+	case 0:
+		return &Schema{Kind: "bool"}
+	case 1, 2, 3:
+		return &Schema{Kind: "num", NK: vx.Pick(g.r, numKinds)}
+	case 4:
+		return &Schema{Kind: "i64"}
+	case 5:
+		return &Schema{Kind: "u64"}
+	case 6:
+		return &Schema{Kind: "str"}
+	case 7:
+		return &Schema{Kind: "bytes"}
+	case 8:
+		return &Schema{Kind: "barr", N: vx.Pick(g.r, []int{0, 1, 2, 2, 4, 32})}
+	case 9:
+		return &Schema{Kind: "u256"}
+	case 10:
+		return &Schema{Kind: "time"}
+	}
+	return &Schema{Kind: "num", NK: vx.Pick(g.r, numKinds)}
+}
+
+func (g *gen) keySchema() *Schema {
+	switch g.r.Intn(6) {
+	case 0, 1:
+		return &Schema{Kind: "str"}
+	case 2:
+		return &Schema{Kind: "i64"}
+	case 3:
+		return &Schema{Kind: "u64"}
+	case 4:
+		return &Schema{Kind: "barr", N: vx.Pick(g.r, []int{1, 2, 4})}
+	}
+	return &Schema{Kind: "time"}
+}
+
+func (g *gen) structSchema(depth int, iface bool, ptr bool, code bool) *Schema {
+	s := &Schema{Kind: "struct", Ptr: ptr, Code: -1}
+	if code {
+		s.Code, s.CodeU8 = g.nCode, g.codeU8
+		g.nCode += 1 + int64(g.r.Intn(3))
+	}
+	n := g.r.Intn(5)
+	if depth == 0 || (code && n == 0) { // struct{} is one shared type: it cannot carry a code of its own
+		n = 1 + g.r.Intn(5)
+	}
+	for i := 0; i < n; i++ {
+		g.nField++
+		f := &Field{Name: fmt.Sprintf("F%d%s", g.nField, vx.Pick(g.r, nameSuffix))}
+		if g.r.Chance(1, 4) {
+			f.TagKey = fmt.Sprintf("k%d", g.nField)
+			if g.r.Chance(1, 8) && !code {
+				f.TagKey = "type"
+				for _, o := range s.Fields {
+					if o.TagKey == "type" {
+						f.TagKey = fmt.Sprintf("k%d", g.nField)
+					}
+				}
+			}
+		}
+		f.S = g.schema(depth+1, iface)
+		if f.S.Kind == "u256" || f.S.Kind == "iface" || (f.S.Kind == "struct" && f.S.Ptr) {
+			f.Opt = g.r.Chance(1, 2)
+		}
+		s.Fields = append(s.Fields, f)
+	}
+	return s
+}
+
+func (g *gen) schema(depth int, iface bool) *Schema {
+	if depth >= 3 || g.r.Chance(1, 2) {
+		return g.leaf()
+	}
+	switch g.r.Intn(8) {
+	case 0, 1:
+		return g.structSchema(depth, iface, g.r.Bool(), g.r.Chance(1, 3))
+	case 2, 3:
+		e := g.schema(depth+1, iface)
+		for e.Kind == "num" && e.NK == "U8" { // []uint8 is the bytes form
+			e = g.leaf()
+		}
+		return &Schema{Kind: "slice", Elem: e}
+	case 4:
+		e := g.schema(depth+1, iface)
+		for e.Kind == "num" && e.NK == "U8" {
+			e = g.leaf()
+		}
+		return &Schema{Kind: "arr", N: g.r.Intn(4), Elem: e}
+	case 5, 6:
+		return &Schema{Kind: "map", Key: g.keySchema(), Elem: g.schema(depth+1, iface)}
+	}
+	if iface {
+		return &Schema{Kind: "iface", Alts: g.alts}
+	}
+	return g.leaf()
+}
+
+// newCase: a fresh top-level struct schema with its alternatives, built and registered on a fresh API.
+func newCase(r *vx.Rng) (*Schema, *serix.API) {
+	g := &gen{r: r, nCode: int64(r.Intn(3)), codeU8: r.Bool()}
+	if !g.codeU8 && r.Chance(1, 3) {
+		g.nCode = 4294967295 - 60
+	}
+	for i, n := 0, vx.Pick(r, []int{0, 1, 2, 3}); i < n; i++ {
+		g.alts = append(g.alts, g.structSchema(1, false, false, true))
+	}
+	top := g.structSchema(0, true, false, r.Chance(1, 4))
+	return top, setup(top)
+}
+
+func setup(top *Schema) *serix.API {
+	top.build()
+	api := serix.NewAPI()
+	top.register(api, map[*Schema]bool{})
+	return api
+}
+
+// ---------- value generation ----------
+
+var strPool = []string{"", "a", "héllo", `q"uo\te`, "<>&", " x", "日本", "\n\t\x01", "0x01", "type", "12", "�", "a b"}
+
+func big256() *big.Int { return new(big.Int).Lsh(big.NewInt(1), 256) }
+
+func genValue(r *vx.Rng, s *Schema, dst reflect.Value) {
+	switch s.Kind {
+	case "bool":
+		dst.SetBool(r.Bool())
+	case "num":
+		bits := map[string]uint{"I8": 8, "I16": 16, "I32": 32, "U8": 8, "U16": 16, "U32": 32}[s.NK]
+		if s.NK[0] == 'U' {
+			maxv := uint64(1)<<bits - 1
+			dst.SetUint(vx.Pick(r, []uint64{0, 1, maxv, maxv - 1, maxv / 2, maxv/2 + 1, r.U64() & maxv}))
+		} else {
+			lim := int64(1) << (bits - 1)
+			dst.SetInt(vx.Pick(r, []int64{0, 1, -1, lim - 1, -lim, int64(r.U64()%uint64(2*lim)) - lim}))
+		}
+	case "i64":
+		dst.SetInt(vx.Pick(r, []int64{0, 1, -1, math.MaxInt64, math.MinInt64, int64(r.U64()), 9007199254740993}))
+	case "u64":
+		dst.SetUint(vx.Pick(r, []uint64{0, 1, math.MaxUint64, 1 << 63, r.U64(), 9007199254740993}))
+	case "str":
+		dst.SetString(vx.Pick(r, strPool))
+	case "bytes":
+		switch r.Intn(5) {
+		case 0: // nil
+		case 1:
+			dst.SetBytes([]byte{})
+		default:
+			b := make([]byte, 1+r.Intn(5))
+			for i := range b {
+				b[i] = vx.Pick(r, []byte{0, 1, 15, 16, 255, byte(r.U64())})
+			}
+			dst.SetBytes(b)
+		}
+	case "barr":
+		for i := 0; i < s.N; i++ {
+			dst.Index(i).SetUint(uint64(vx.Pick(r, []byte{0, 0, 1, 255, 171, byte(r.U64())})))
+		}
+	case "u256":
+		m1 := new(big.Int).Sub(big256(), big.NewInt(1))
+		rnd := new(big.Int).SetUint64(r.U64())
+		rnd.Lsh(rnd, uint(r.Intn(193)))
+		dst.Set(reflect.ValueOf(vx.Pick(r, []*big.Int{big.NewInt(0), big.NewInt(1), big.NewInt(255), big.NewInt(256), new(big.Int).Lsh(big.NewInt(1), 64), m1, rnd, big.NewInt(16)})))
+	case "time":
+		n := vx.Pick(r, []int64{0, 1, math.MaxInt64, 1_700_000_000_123_456_789, int64(r.U64() >> 1), 999_999_999, 1_000_000_000})
+		dst.Set(reflect.ValueOf(time.Unix(0, n).UTC()))
+	case "struct":
+		if s.Ptr {
+			dst.Set(reflect.New(s.T.Elem()))
+			dst = dst.Elem()
+		}
+		for i, f := range s.Fields {
+			nilP := 1
+			if f.Opt {
+				nilP = 12
+			}
+			if (f.S.Kind == "u256" || f.S.Kind == "iface" || (f.S.Kind == "struct" && f.S.Ptr)) && r.Chance(nilP, 30) {
+				continue // leave nil (an error / panic of the encoder when the field is not optional)
+			}
+			genValue(r, f.S, dst.Field(i))
+		}
+	case "slice":
+		n := r.Intn(4)
+		if n == 0 && r.Bool() {
+			return
+		}
+		sl := reflect.MakeSlice(s.T, n, n)
+		for i := 0; i < n; i++ {
+			genValue(r, s.Elem, sl.Index(i))
+		}
+		dst.Set(sl)
+	case "arr":
+		for i := 0; i < s.N; i++ {
+			genValue(r, s.Elem, dst.Index(i))
+		}
+	case "map":
+		n := r.Intn(4)
+		if n == 0 && r.Bool() {
+			return
+		}
+		m := reflect.MakeMap(s.T)
+		for i := 0; i < n; i++ {
+			k, v := reflect.New(s.Key.T).Elem(), reflect.New(s.Elem.T).Elem()
+			genValue(r, s.Key, k)
+			genValue(r, s.Elem, v)
+			m.SetMapIndex(k, v)
+		}
+		dst.Set(m)
+	case "iface":
+		if len(s.Alts) == 0 {
+			return
+		}
+		a := vx.Pick(r, s.Alts)
+		v := reflect.New(a.T).Elem()
+		genValue(r, a, v)
+		dst.Set(v)
+	}
+}
+
+// ---------- running the real code ----------
+
+type outcome struct {
+	class string // ok err panic
+	doc   []byte
+	val   reflect.Value
+	msg   string
+}
+
+func runEncode(api *serix.API, ptr reflect.Value, val bool) (o outcome) {
+	defer func() {
+		if r := recover(); r != nil {
+			o = outcome{class: "panic", msg: fmt.Sprint(r)}
+		}
+	}()
+	var opts []serix.Option
+	if val {
+		opts = append(opts, serix.WithValidation())
+	}
+	b, err := api.JSONEncode(context.Background(), ptr.Interface(), opts...)
+	if err != nil {
+		return outcome{class: "err", msg: err.Error()}
+	}
+	return outcome{class: "ok", doc: b}
+}
+
+func runDecode(api *serix.API, s *Schema, doc []byte, val bool) (o outcome) {
+	defer func() {
+		if r := recover(); r != nil {
+			o = outcome{class: "panic", msg: fmt.Sprint(r)}
+		}
+	}()
+	var opts []serix.Option
+	if val {
+		opts = append(opts, serix.WithValidation())
+	}
+	dst := reflect.New(s.T)
+	if err := api.JSONDecode(context.Background(), doc, dst.Interface(), opts...); err != nil {
+		return outcome{class: "err", msg: err.Error()}
+	}
+	return outcome{class: "ok", val: dst.Elem()}
+}
+
+func obsValue(s *Schema, o outcome) string {
+	switch o.class {
+	case "ok":
+		return "(Ok " + term(s, o.val) + ")"
+	case "err":
+		return "(Err EShape)"
+	}
+	return "Panic"
+}
+
+func short(s string, n int) string {
+	if len(s) > n {
+		return s[:n] + "..."
+	}
+	return s
+}
+
+// ---------- harness ----------
+
+type harness struct {
+	cf *vx.CasesFile
+	st *vx.Stats
+}
+
+func (h *harness) add(termStr string, desc map[string]any, key string, nontrivial bool) {
+	h.cf.Add(termStr)
+	h.st.CaseIndex = append(h.st.CaseIndex, desc)
+	h.st.Case(key, nontrivial)
+}
+
+func nontrivial(s *Schema, doc string) bool { return s.depth() >= 3 || len(doc) >= 60 }
+
+// encCase: one (schema, value): JSONEncode vs jencode_top, then JSONDecode of the output vs jdecode_top and vs v.
+func (h *harness) encCase(r *vx.Rng, s *Schema, api *serix.API, ptr reflect.Value, val bool, oracle bool, tag string) []byte {
+	vt := term(s, ptr.Elem())
+	sc := s.coq()
+	e := runEncode(api, ptr, val)
+	h.st.Count("enc:" + e.class)
+	obs := "Panic"
+	var tree *jt
+	switch e.class {
+	case "ok":
+		var err error
+		tree, err = parseJT(e.doc)
+		if err != nil {
+			vx.Die("JSONEncode produced unparsable JSON: %v", err)
+		}
+		canon := tree.clone()
+		canonMaps(s, canon)
+		obs = "(Ok " + canon.coq() + ")"
+	case "err":
+		obs = "(Err EType)"
+	}
+	desc := map[string]any{"mode": "enc", "tag": tag, "validation": val, "schema": sc, "value": vt, "go_outcome": e.class, "doc": short(string(e.doc), 400), "msg": short(e.msg, 120)}
+	h.add("CEnc "+sc+" "+vt+" "+obs, desc, sc+vt, nontrivial(s, string(e.doc)))
+	if e.class != "ok" {
+		return nil
+	}
+	d := runDecode(api, s, e.doc, val)
+	h.st.Count("dec-of-enc:" + d.class)
+	desc2 := map[string]any{"mode": "dec-of-enc", "tag": tag, "validation": val, "schema": sc, "doc": short(string(e.doc), 400), "go_outcome": d.class, "msg": short(d.msg, 120)}
+	h.add("CDec "+sc+" "+tree.coq()+" "+obsValue(s, d), desc2, sc+string(e.doc), nontrivial(s, string(e.doc)))
+	if oracle {
+		if d.class != "ok" {
+			h.st.Fail(map[string]any{"what": "JSONDecode rejects (or panics on) the output of JSONEncode", "case": desc2})
+		} else if got := term(s, d.val); got != vt {
+			desc2["want"], desc2["got"] = vt, got
+			h.st.Fail(map[string]any{"what": "JSONDecode(JSONEncode v) != v", "case": desc2})
+		}
+	}
+	h.st.Sample(map[string]any{"schema": short(sc, 200), "doc": short(string(e.doc), 200)}, 4)
+	return e.doc
+}
+
+// decCase: one (schema, document): JSONDecode under recover vs jdecode_top; oracle: no panic.
+func (h *harness) decCase(s *Schema, api *serix.API, doc *jt, val bool, tag string) string {
+	text := doc.String()
+	d := runDecode(api, s, []byte(text), val)
+	h.st.Count("dec:" + d.class)
+	h.st.Count("mut:" + tag)
+	sc := s.coq()
+	desc := map[string]any{"mode": "dec", "tag": tag, "validation": val, "schema": sc, "doc": short(text, 400), "go_outcome": d.class, "msg": short(d.msg, 120)}
+	h.add("CDec "+sc+" "+doc.coq()+" "+obsValue(s, d), desc, sc+text, nontrivial(s, text))
+	if d.class == "panic" {
+		h.st.Fail(map[string]any{"what": "JSONDecode panicked on a well-formed JSON document", "case": desc})
+	}
+	return d.class
+}
+
+// ---------- directed cases ----------
+
+// directedSchema: the probe type of D02b as a schema.
+func directedSchema() *Schema {
+	in := func(ptr bool) *Schema {
+		return &Schema{Kind: "struct", Ptr: ptr, Code: -1, Fields: []*Field{{Name: "A", S: &Schema{Kind: "num", NK: "I8"}}}}
+	}
+	alt := &Schema{Kind: "struct", Code: 7, CodeU8: true, Fields: []*Field{{Name: "Q", S: &Schema{Kind: "num", NK: "U16"}}}}
+	f := func(name string, s *Schema) *Field { return &Field{Name: name, S: s} }
+	opt := func(name string, s *Schema) *Field { return &Field{Name: name, S: s, Opt: true} }
+	return &Schema{Kind: "struct", Code: -1, Fields: []*Field{
+		f("I8", &Schema{Kind: "num", NK: "I8"}), f("U32", &Schema{Kind: "num", NK: "U32"}), f("I64", &Schema{Kind: "i64"}),
+		f("B", &Schema{Kind: "bool"}), f("Bs", &Schema{Kind: "bytes"}), f("Arr", &Schema{Kind: "barr", N: 2}),
+		f("Sl", &Schema{Kind: "slice", Elem: &Schema{Kind: "num", NK: "I8"}}), f("T", &Schema{Kind: "time"}),
+		f("Big", &Schema{Kind: "u256"}), f("In", in(false)), opt("Opt", in(true)),
+		f("M", &Schema{Kind: "map", Key: &Schema{Kind: "str"}, Elem: &Schema{Kind: "num", NK: "I8"}}),
+		f("AI", &Schema{Kind: "arr", N: 2, Elem: &Schema{Kind: "num", NK: "I8"}}),
+		opt("If", &Schema{Kind: "iface", Alts: []*Schema{alt}}),
+		f("MP", &Schema{Kind: "map", Key: &Schema{Kind: "i64"}, Elem: in(true)}),
+		f("U64", &Schema{Kind: "u64"}),
+	}}
+}
+
+const directedGood = `{"i8":1,"u32":2,"i64":"3","b":true,"bs":"0x01","arr":"0x0102","sl":[1,2],"t":"5","big":"0x7","in":{"a":1},"m":{"k":1},"aI":[1,2],"if":{"type":7,"q":9},"mP":{"5":{"a":1}},"u64":"9"}`
+
+// every line: key := replacement; the first block are the inputs that panicked on the pinned tree (D02b, arrays, GetByValue).
+var directedMut = [][2]string{
+	{"i8", `"x"`}, {"i8", `null`}, {"u32", `"x"`}, {"i64", `3`}, {"b", `"x"`}, {"b", `null`}, {"bs", `1`}, {"arr", `1`},
+	{"sl", `1`}, {"sl", `null`}, {"sl", `""`}, {"sl", `{}`}, {"sl", `"ab"`}, {"sl", `{"a":1}`}, {"t", `5`}, {"aI", `1`},
+	{"if", `{"type":"x","q":9}`}, {"u64", `9`}, {"aI", `[5,6]`}, {"mP", `{"5":{"a":1},"6":{"a":2}}`},
+	{"big", `7`}, {"in", `1`}, {"m", `1`}, {"aI", `[5,6,7]`}, {"aI", `[]`},
+	{"i8", `300`}, {"i8", `1.9`}, {"i8", `-1.9`}, {"i8", `3e9`}, {"i8", `1e30`}, {"i8", `-129`}, {"i8", `-0`},
+	{"u32", `-1`}, {"u32", `5e9`}, {"u32", `1e19`}, {"u32", `1e30`}, {"u32", `-1e30`}, {"u32", `9007199254740993`}, {"u32", `4294967303`},
+	{"i64", `"+5"`}, {"i64", `"-0"`}, {"i64", `""`}, {"i64", `"9223372036854775808"`}, {"i64", `"-9223372036854775808"`}, {"i64", `"-"`},
+	{"t", `"18446744073709551615"`}, {"t", `"18446744073709551616"`}, {"t", `"-1"`},
+	{"big", `"0x"`}, {"big", `"0x00"`}, {"big", `"0x0"`}, {"big", `"0XfF"`}, {"big", `""`}, {"big", `"ff"`},
+	{"big", `"0x10000000000000000000000000000000000000000000000000000000000000000"`},
+	{"big", `"0xffffffffffffffffffffffffffffffffffffffffffffffffffffffffffffffff"`},
+	{"arr", `"0x010203"`}, {"arr", `"0x01"`}, {"arr", `""`}, {"arr", `"0x"`}, {"arr", `"0102"`},
+	{"bs", `"0X0a"`}, {"bs", `"0x0A"`}, {"bs", `"0x"`}, {"bs", `"0x1"`}, {"bs", `"0xzz"`}, {"bs", `""`},
+	{"if", `{"type":7.9,"q":9}`}, {"if", `{"type":4294967303,"q":9}`}, {"if", `{"type":8,"q":9}`}, {"if", `{"q":9}`}, {"if", `null`}, {"if", `7`},
+	{"mP", `{"5":{"a":1},"+5":{"a":2}}`}, {"mP", `{"x":{"a":1}}`}, {"mP", `{"5":null}`},
+	{"m", `{"k":1,"l":"x"}`}, {"in", `{"a":1,"zz":[1e400]}`}, {"in", `{}`}, {"opt", `null`}, {"opt", `{"a":2}`},
+}
+
+func (h *harness) directed() {
+	s := directedSchema()
+	api := setup(s)
+	good, err := parseJT([]byte(directedGood))
+	must(err)
+	if c := h.decCase(s, api, good, false, "directed-good"); c != "ok" {
+		h.st.Fail(map[string]any{"what": "directed valid document rejected", "doc": directedGood})
+	}
+	for _, m := range directedMut {
+		d := good.clone()
+		raw, err := parseJT([]byte(m[1]))
+		must(err)
+		found := false
+		for i, k := range d.keys {
+			if k == m[0] {
+				d.vals[i], found = raw, true
+			}
+		}
+		if !found {
+			d.keys, d.vals = append(d.keys, m[0]), append(d.vals, raw)
+		}
+		h.decCase(s, api, d, false, "directed")
+	}
+	for _, top := range []string{`null`, `[]`, `3`, `"x"`, `{}`, `true`, `{"i8":1e400}`, `{"zz":1e400}`} {
+		d, err := parseJT([]byte(top))
+		must(err)
+		h.decCase(s, api, d, false, "directed-top")
+	}
+	// a valid value through the encoder, then out-of-guard times (clamped by design: no oracle)
+	ptr := reflect.New(s.T)
+	must(api.JSONDecode(context.Background(), []byte(directedGood), ptr.Interface()))
+	h.encCase(nil, s, api, ptr, false, true, "directed")
+	for _, tm := range []time.Time{time.Unix(-5, 0).UTC(), time.Date(3000, 1, 1, 0, 0, 0, 0, time.UTC), time.Date(1500, 1, 1, 0, 0, 0, 0, time.UTC)} {
+		ptr.Elem().Field(7).Set(reflect.ValueOf(tm))
+		h.encCase(nil, s, api, ptr, false, false, "directed-time-clamped")
+	}
+}
+
+// ---------- mutation of documents ----------
+
+var otherKind = []string{`null`, `true`, `false`, `0`, `1`, `-1`, `1.5`, `300`, `"x"`, `""`, `"0x"`, `"0x00"`, `"7"`, `[]`, `[1]`, `[null]`, `{}`, `{"a":1}`, `{"type":1}`, `[[]]`, `"0x0102"`}
+var numEdge = []string{`1e400`, `-1e400`, `-0`, `9007199254740993`, `4294967296`, `4294967295`, `2147483648`, `2147483647`, `-2147483648`, `-2147483649`, `1e19`, `-1e19`, `0.5`, `-0.5`, `255`, `256`, `-129`, `128`, `65536`, `32768`, `1e-400`, `9223372036854775807`, `9223372036854775808`, `1e308`, `4294967303.7`}
+var strEdge = []string{`"+5"`, `"-5"`, `"-0"`, `"05"`, `"18446744073709551615"`, `"18446744073709551616"`, `"9223372036854775807"`, `"9223372036854775808"`, `"-9223372036854775808"`, `"-9223372036854775809"`, `"0x0"`, `"0x1"`, `"0X0a"`, `"0x0A0b"`, `"0xg0"`, `"0x0102030405"`, `"1_0"`, `" 5"`, `"5 "`, `"0x00ff"`, `"١"`, `"é"`, `"+"`, `"-"`, `"0xffffffffffffffffffffffffffffffffffffffffffffffffffffffffffffffff"`, `"0x10000000000000000000000000000000000000000000000000000000000000000"`, `"0x0000000000000000000000000000000000000000000000000000000000000000000000"`}
+
+func lit(s string) *jt {
+	j, err := parseJT([]byte(s))
+	must(err)
+	return j
+}
+
+// mutate returns a mutated copy of doc and a tag naming the operator.
+func mutate(r *vx.Rng, doc *jt) (*jt, string) {
+	d := doc.clone()
+	var sl []slot
+	d.slots(&sl)
+	if len(sl) == 0 || r.Chance(1, 25) {
+		return lit(vx.Pick(r, []string{`null`, `[]`, `3`, `"x"`, `{}`, `true`, `{"zz":1e400}`})), "top"
+	}
+	op := r.Intn(10)
+	for try := 0; try < 40; try++ {
+		if try%10 == 9 {
+			op = r.Intn(10)
+		}
+		s := vx.Pick(r, sl)
+		cur := s.get()
+		switch op {
+		case 0, 1, 2:
+			s.set(lit(vx.Pick(r, otherKind)))
+			return d, "other-kind"
+		case 3:
+			if cur.k == '#' || r.Chance(1, 6) {
+				s.set(lit(vx.Pick(r, numEdge)))
+				return d, "num-edge"
+			}
+		case 4:
+			if cur.k == 's' || r.Chance(1, 6) {
+				s.set(lit(vx.Pick(r, strEdge)))
+				return d, "str-edge"
+			}
+		case 5: // delete a key / an element
+			p := s.parent
+			if p.k == 'o' {
+				p.keys = append(p.keys[:s.idx:s.idx], p.keys[s.idx+1:]...)
+				p.vals = append(p.vals[:s.idx:s.idx], p.vals[s.idx+1:]...)
+				return d, "del-key"
+			}
+			p.arr = append(p.arr[:s.idx:s.idx], p.arr[s.idx+1:]...)
+			return d, "del-elem"
+		case 6: // extra key / element
+			if cur.k == 'o' {
+				k := vx.Pick(r, []string{"zz", "type", "", "a"})
+				if cur.get(k) == nil {
+					cur.keys, cur.vals = append(cur.keys, k), append(cur.vals, lit(vx.Pick(r, otherKind)))
+					return d, "extra-key"
+				}
+			} else if cur.k == 'a' {
+				e := lit(vx.Pick(r, otherKind))
+				if len(cur.arr) > 0 && r.Bool() {
+					e = cur.arr[0].clone()
+				}
+				cur.arr = append(cur.arr, e)
+				return d, "extra-elem"
+			}
+		case 7: // type code
+			if cur.k == 'o' && cur.get("type") != nil {
+				for i, k := range cur.keys {
+					if k == "type" {
+						old := cur.vals[i].num
+						if cur.vals[i].k != '#' {
+							old = "1"
+						}
+						cur.vals[i] = lit(vx.Pick(r, []string{`0`, `1`, `2`, `3`, `5`, old + `.5`, `"` + old + `"`, `4294967296`, `-1`, `null`, `4294967291`, `1e400`}))
+					}
+				}
+				return d, "type-code"
+			}
+		case 8: // aliasing key in an object (a second spelling of a map key)
+			if s.parent.k == 'o' {
+				k := s.parent.keys[s.idx]
+				nk := vx.Pick(r, []string{"+" + k, "0" + k, "0X" + trim0x(k), k + " "})
+				if s.parent.get(nk) == nil {
+					s.parent.keys, s.parent.vals = append(s.parent.keys, nk), append(s.parent.vals, cur.clone())
+					return d, "alias-key"
+				}
+			}
+		case 9: // swap with another sub-tree of the document
+			o := vx.Pick(r, sl)
+			s.set(o.get().clone())
+			return d, "graft"
+		}
+	}
+	return d, "none"
+}
+
+func trim0x(k string) string {
+	if len(k) >= 2 && k[:2] == "0x" {
+		return k[2:]
+	}
+	return k
+}
+
+// ---------- main ----------
+
 func main() {
-	if len(os.Args) > 1 && os.Args[1] == "probe" {
+	if len(os.Args) < 2 {
+		vx.Die("usage: hx-c01json enc|mut|probe [flags]")
+	}
+	if os.Args[1] == "probe" {
 		probe()
+		probe2()
 		return
 	}
+	fs := flag.NewFlagSet(os.Args[1], flag.ExitOnError)
+	n := fs.Int("n", 300, "number of (schema, value) pairs")
+	k := fs.Int("k", 4, "mutants per valid document (mut)")
+	seed := fs.Uint64("seed", 1, "seed")
+	out := fs.String("out", "cases.v", "cases file")
+	stats := fs.String("stats", "stats.json", "stats file")
+	must(fs.Parse(os.Args[2:]))
+	if runtime.GOARCH != "amd64" {
+		fmt.Fprintln(os.Stderr, "warning: the float64->integer conversions of the model are those of gc/amd64")
+	}
+	h := &harness{
+		cf: &vx.CasesFile{
+			Header: "From Coq Require Import ZArith NArith List String.\nFrom Verif.C01_SerixJson Require Import Model Corr.\nImport ListNotations.\nOpen Scope Z_scope.\n",
+			Type:   "case",
+			Footer: "Definition M := Eval vm_compute in mismatches cases.\nPrint M.",
+		},
+		st: vx.NewStats("distinct (schema, input) pairs whose schema has depth >= 3 or whose document has >= 60 bytes"),
+	}
+	r := vx.NewRng(*seed)
+	switch os.Args[1] {
+	case "enc":
+		h.directed()
+		for i := 0; i < *n; i++ {
+			cr := r.Fork()
+			s, api := newCase(cr)
+			for rep := 0; rep < 2; rep++ {
+				ptr := reflect.New(s.T)
+				genValue(cr, s, ptr.Elem())
+				h.encCase(cr, s, api, ptr, cr.Chance(1, 3), true, "random")
+			}
+		}
+	case "mut":
+		h.directed()
+		for i := 0; i < *n; i++ {
+			cr := r.Fork()
+			s, api := newCase(cr)
+			var doc *jt
+			for try := 0; try < 5 && doc == nil; try++ {
+				ptr := reflect.New(s.T)
+				genValue(cr, s, ptr.Elem())
+				if e := runEncode(api, ptr, false); e.class == "ok" {
+					doc, _ = parseJT(e.doc)
+				}
+			}
+			if doc == nil {
+				h.st.Count("mut:no-valid-doc")
+				continue
+			}
+			for j := 0; j < *k; j++ {
+				m, tag := mutate(cr, doc)
+				if cr.Chance(1, 4) {
+					m, tag = mutate(cr, m)
+					tag = "double"
+				}
+				h.decCase(s, api, m, cr.Chance(1, 3), tag)
+			}
+		}
+	default:
+		vx.Die("unknown subcommand %s", os.Args[1])
+	}
+	h.st.Extra["goarch"] = runtime.GOARCH
+	h.st.Extra["go"] = runtime.Version()
+	_ = strconv.Itoa
+	must(h.cf.Write(*out))
+	must(h.st.Write(*stats))
 }
